@@ -963,7 +963,7 @@ class TensorDict(TensorDictBase):
                     )
                 ]
                 agglomerate = torch.cat(agglomerate, dim=0)
-                return getattr(torch, reduction_name)(agglomerate)
+                return getattr(torch, reduction_name)(agglomerate, **kwargs)
             else:
                 # the leaves are concatenated along a batch dim: a nested lazy stack must
                 # contribute its stacked leaves, not one leaf per member
@@ -991,7 +991,8 @@ class TensorDict(TensorDictBase):
                         dim = _maybe_correct_neg_dim(dim, None, self.batch_dims)
                     cat_dim = dim
                 agglomerate = torch.cat(agglomerate, dim=cat_dim)
-                kwargs = {}
+                # dtype / correction given to the front-end apply here as well
+                kwargs = dict(kwargs)
                 if keepdim is not NO_DEFAULT:
                     kwargs["keepdim"] = keepdim
                 return getattr(torch, reduction_name)(agglomerate, dim=dim, **kwargs)
